@@ -192,7 +192,9 @@ static void run_history (const int *h, int depth, uint64_t *key, int verify_leaf
 		int codes [5] ; char buf [5 * 2 * 8] ; SNDFILE *w = open_handle (SFM_WRITE, &info) ;
 		if (! w) { *key = 0 ; return ; }
 		for (int i = 0 ; i < 5 ; i++) codes [i] = m.code [i] = next_code (i, 0) ;
-		fill_frames (buf, codes, 5) ; vl_write (w, R.type, 1, buf, 5) ; INLIB (sf_close (w)) ;
+		fill_frames (buf, codes, 5) ; vl_write (w, R.type, 1, buf, 5) ;
+		if (R.prepop == 2) INLIB (sf_set_string (w, SF_STR_COMMENT, "a comment that lies behind the audio")) ;	/* a LIST chunk behind the data: appended audio grows over it, close writes it again */
+		INLIB (sf_close (w)) ;
 		m.frames = 5 ; m.rpos = 0 ; m.wpos = 5 ;
 		rt_info (&info, R.f, R.ch, 8000) ;
 		}
@@ -351,8 +353,9 @@ void harness_run (void)
 		for (int ch = 1 ; ch <= 2 ; ch++)
 			for (int type = 0 ; type <= 2 ; type += 2)
 				for (int route = 0 ; route < 2 ; route++)
-					for (int prepop = 0 ; prepop < 2 ; prepop++)
+					for (int prepop = 0 ; prepop < 3 ; prepop++)
 					{	int maxdepth ;
+						if (prepop == 2 && ! (core && major == SF_FORMAT_WAV)) continue ;	/* the container that takes SFM_RDWR with a chunk behind the data */
 						if (! rt_accepts (f, ch, 8000)) continue ;
 						if (! core && (ch != 1 || type != T_SHORT || route != (fi & 1))) continue ;	/* non-core formats: one variant, route alternating */
 						if (type == T_FLOAT && (sub == SF_FORMAT_PCM_U8)) continue ;
